@@ -114,7 +114,7 @@ func (o *OvsdbServer) Serve(protocol string, path string) error {
 		}
 
 		// TODO: Need to cleanup when connection is closed
-		go o.srv.ServeCodec(jsonrpc.NewJSONCodec(conn))
+		go o.srv.ServeCodec(&lockedCodec{Codec: jsonrpc.NewJSONCodec(conn)})
 	}
 }
 
